@@ -18,6 +18,22 @@ CHECKS = {
     technique="deterministic simulation: seeded virtual-time schedules of the real builder (-jN, -k, failing steps) with history monitors, plus the real JobServerSemaphore driven by task scripts and a foreign token user on a real pipe",
     text="Layer 1 monitors concurrency bound, dependency order, once-only execution, failure confinement, equality with the sequential build and token conservation over seeded schedules of generated DAGs; layer 2 explores acquire/release interleavings of the token semaphore (internal and external mode) with invariants after every step. Sampling, not proof.",
     note="A script's effect is atomic at the start or end of its virtual interval; for a failing checkout the keep-going completeness rule is not asserted (Build-Id calculation above it fails by design)."),
+ "C07": dict(level="exploration", engine="loopsim", ref="5/C07",
+    technique="deterministic simulation: several workspaces at different paths sharing one archive, seeded invocation histories with upload/download modes and emulated hosts, byzantine archive faults; oracle = local clean build by content",
+    text="Every successful invocation with downloads must yield results equal (by content) to a purely local clean build of its own project state on its own emulated host; identical state+host workspaces must download without building; damaged artifacts may fail a build but never yield different results. Sampling, not proof.",
+    note="Live-build-id mispredictions are not exercised (no remote SCM in these worlds); host identity is a file read by fingerprint scripts."),
+ "C12": dict(level="exploration", engine="loopsim+gitworld", ref="5/C12",
+    technique="deterministic simulation: turn-taking history of upstream maintainer, recipe author, user and Bob (real git under the virtual-time loop) with upstream outages; convergence vs fresh checkout and marker-based no-loss oracle",
+    text="Seeded and directed histories of upstream commits/tags/force-pushes, SCM spec edits, user edits carrying unique markers and Bob dev/clean invocations (develop and release mode); untouched workspaces must equal a fresh checkout after every successful build and every marker must remain reachable (working tree, attic or any ref) after every invocation.",
+    note="git is trusted; reflog-only reachability counts as lost; forced clean is excluded as the statement says."),
+ "C14": dict(level="exploration", engine="loopsim", ref="5/C14",
+    technique="deterministic simulation: build/upload/download/share histories in two workspaces under the virtual-time loop; every visited workspace's audit trail re-checked by an independent reader (own digest implementation, schema, closure, ids, hashes, SCM records)",
+    text="After every successful invocation of seeded histories (fresh, incremental, downloaded, shared) each visited step workspace, every archive artifact and every shared package is checked: schema, complete reference closure, artifact-id = digest of record, variant-id, result-hash (uncached hash and canonical tree), build-id (recomputed), meta, dependency ids in declared order, import SCM digest.",
+    note="The record schema object is taken from bob.audit as the documented structure; which workspaces an invocation visited is derived from Bob's recorded provenance (built/downloaded/shared)."),
+ "C16": dict(level="exploration", engine="loopsim", ref="5/C16",
+    technique="deterministic simulation: seeded histories of variant-changing edits, dev/build and clean commands; directory map monitor, workspace-state-at-script-start seam, clean soundness model",
+    text="Along seeded histories the (kind, recipe, variant)->directory map must stay injective and stable, a directory handed to another variant must be empty when its script starts (observed at the seam), clean may only delete workspaces whose content belongs to no current package, dry-run changes nothing, and nothing up to date is rebuilt after clean.",
+    note="'Content belongs to a package' is tracked by the harness as the variant of the last script executed in that workspace."),
  "C09": dict(level="fault_enumeration", engine="procsim", ref="5/C09",
     technique="deterministic simulation: seeded one-fs-op-at-a-time scheduling of real uploader/mirror/reader processes with SIGKILL and errno injection at every sim point",
     text="Seeded exploration of process interleavings on one LocalArchive directory with an invariant evaluated on the real directory after every scheduler step; in enumeration cases every sim point of the chosen actor is killed in turn (exhaustive per sampled world/schedule). Sampling, not proof.",
